@@ -18,12 +18,21 @@ RULE = ('exhaustive: every utility decorator x {def, async def} x signature shap
         'all ordered pairs of the 11 stackable decorators x flavours x shapes with a 4-call history; trace_class/timer_class x member kinds '
         '{method, staticmethod, classmethod, property} x access {instance, class}; metadata/coroutine-ness of pedantic, validate, in_subprocess, retry, '
         'safe_(async_)contextmanager; seeded: stacks of depth 3 and call histories of length <= 20 (counter).  '
+        'require_kwargs over callables taking *args (and *args + keyword-only, + **kwargs; controls without *args) as plain function, instance method, '
+        'static method (decorator below and above @staticmethod), class method (both orders), bound method / bound class method handed to the decorator '
+        'call, reached through the instance and through the class, alone and under trace, x call styles with positional surplus arguments x {def, async def}.  '
+        'Staged decoration (callables that already carry attributes): a counted function called k = 0..5 times, then decorated again with count_calls '
+        'directly or through each other decorator in between (count_calls(trace(counted)), count_calls(count_calls(f)), re-decoration after calls, a '
+        'num_calls attribute and another __dict__ entry set by hand), every wrapper\'s num_calls entry observed after every call, plus seeded staged stacks.  '
         'non-trivial = at least one call reached a decorator')
 EXHAUSTIVE = {'quick': True, 'thorough': True}
 ASSUMPTIONS = ['argument / result objects have total, side-effect-free __repr__, __str__ and __eq__ (the decorators print and compare them)',
                'ENABLE_PEDANTIC is unset (for_all_methods consults it: C09)',
                'bodies do not suspend (coroutines complete on their first step); event-loop interleaving is out of scope',
-               'for require_kwargs only keyword calls are in the property (positional calls are C05); they are still compared with the model']
+               'for require_kwargs WHICH positional calls are refused is C05; C18 claims: a positional call is either refused with PedanticCallWithArgsException '
+               'before anything underneath runs, or goes through unchanged (every argument of the caller reaches the callable)',
+               'a staticmethod / classmethod OBJECT handed to require_kwargs (the decorator written above @staticmethod / @classmethod) is not a function: '
+               'modelled and compared (every call raises PedanticTypeCheckException), nothing claimed']
 TRUSTED = ['functools.wraps copies __name__/__qualname__/__doc__/__module__/__dict__ and sets __wrapped__ (CPython); the model takes "carries @wraps(<decorated function>)" as "metadata preserved"',
            'inspect.iscoroutinefunction(f) is true exactly for `async def` functions that are not generators',
            'Python argument binding is modelled (PedVerif.Utility.bind) and exercised against the twin on every case',
@@ -41,6 +50,7 @@ UTIL = ['trace', 'timer', 'count_calls', 'deprecated', 'trace_if_returns', 'does
         'overrides', 'require_kwargs', 'mock', 'unimplemented']
 ATTRS_ONLY = ['pedantic', 'validate', 'in_subprocess', 'retry', 'safe_contextmanager', 'safe_async_contextmanager']
 FINDING = 'forAllMethodsRebindsStaticAndClassMethods'
+FINDING_BOUND = 'requireKwargsOnBoundMethodNeedsPositionalArgument'
 
 # ------------------------------------------------------------------ signatures and call styles
 
@@ -60,6 +70,19 @@ SHAPES = {
     'm_classm': ('cls, a, b', "[('cls', cls), ('a', a), ('b', b)]", '(), {}', dict(pos=[8, 2, 3], kwonly=[], defaults=[], varpos=False, varkw=False)),
     'm_classm_star': ('cls, *args, **kwargs', "[('cls', cls)]", 'args, kwargs', dict(pos=[8], kwonly=[], defaults=[], varpos=True, varkw=True)),
     'm_prop': ('self', "[('self', self)]", '(), {}', dict(pos=[1], kwonly=[], defaults=[], varpos=False, varkw=False)),
+    # callables under require_kwargs: *args + keyword-only (+ **kwargs), and controls without *args; f = no first parameter, m = self, c = cls
+    'rk_f': ('*args, c=None', "[('c', c)]", 'args, {}', dict(pos=[], kwonly=[4], defaults=[4], varpos=True, varkw=False)),
+    'rk_fk': ('*args, c=None, **kwargs', "[('c', c)]", 'args, kwargs', dict(pos=[], kwonly=[4], defaults=[4], varpos=True, varkw=True)),
+    'rk_fa': ('*args', '[]', 'args, {}', dict(pos=[], kwonly=[], defaults=[], varpos=True, varkw=False)),
+    'rk_fab': ('a, b=None', "[('a', a), ('b', b)]", '(), {}', dict(pos=[2, 3], kwonly=[], defaults=[3], varpos=False, varkw=False)),
+    'rk_m': ('self, *args, c=None', "[('self', self), ('c', c)]", 'args, {}', dict(pos=[1], kwonly=[4], defaults=[4], varpos=True, varkw=False)),
+    'rk_mk': ('self, *args, c=None, **kwargs', "[('self', self), ('c', c)]", 'args, kwargs', dict(pos=[1], kwonly=[4], defaults=[4], varpos=True, varkw=True)),
+    'rk_ma': ('self, *args', "[('self', self)]", 'args, {}', dict(pos=[1], kwonly=[], defaults=[], varpos=True, varkw=False)),
+    'rk_mab': ('self, a, b=None', "[('self', self), ('a', a), ('b', b)]", '(), {}', dict(pos=[1, 2, 3], kwonly=[], defaults=[3], varpos=False, varkw=False)),
+    'rk_c': ('cls, *args, c=None', "[('cls', cls), ('c', c)]", 'args, {}', dict(pos=[8], kwonly=[4], defaults=[4], varpos=True, varkw=False)),
+    'rk_ck': ('cls, *args, c=None, **kwargs', "[('cls', cls), ('c', c)]", 'args, kwargs', dict(pos=[8], kwonly=[4], defaults=[4], varpos=True, varkw=True)),
+    'rk_ca': ('cls, *args', "[('cls', cls)]", 'args, {}', dict(pos=[8], kwonly=[], defaults=[], varpos=True, varkw=False)),
+    'rk_cab': ('cls, a, b=None', "[('cls', cls), ('a', a), ('b', b)]", '(), {}', dict(pos=[8, 2, 3], kwonly=[], defaults=[3], varpos=False, varkw=False)),
 }
 A, B, C3, D4, E5 = 11, 12, 13, 14, 15
 STYLES = {
@@ -67,7 +90,15 @@ STYLES = {
     'RZ': ([], [[6, A], [3, B]]), 'RC': ([], [[6, A], [2, C3], [3, B]]), 'RY': ([], [[2, A], [7, B]]),
     'P1': ([A], []), 'K1': ([], [[2, A]]), 'E': ([], []), 'P3': ([A, B, C3], []),
     'X': ([A, B, C3], [[4, D4], [5, E5]]), 'Kd': ([], [[2, A], [5, E5]]),
+    'P3c': ([A, B, C3], [[4, D4]]), 'P1c': ([A], [[4, D4]]), 'Kc': ([], [[4, D4]]), 'P5': ([A, B, C3, D4, E5], []),
 }
+# require_kwargs forms: which first parameter the shapes have, and the call styles per kind of signature
+RK_FORMS = {'plain': 'f', 'method': 'm', 'static_below': 'f', 'static_above': 'f', 'classm_below': 'c', 'classm_above': 'c', 'bound': 'm', 'bound_classm': 'c'}
+RK_ACCESS = {'plain': [None], 'method': ['instance'], 'static_below': ['instance', 'cls'], 'static_above': ['instance', 'cls'],
+             'classm_below': ['instance', 'cls'], 'classm_above': ['instance', 'cls'], 'bound': [None], 'bound_classm': [None]}
+RK_STYLES = {'': ['P3c', 'P3', 'P1', 'P2', 'P5', 'Kc', 'E', 'X', 'P1c'], 'k': ['P3c', 'P3', 'P1', 'Kc', 'E', 'X'], 'a': ['P3', 'P1', 'E', 'P5', 'Kc'],
+             'ab': ['K2', 'M', 'P2', 'P1', 'K1', 'P3']}
+STAGED_POOL = ['trace', 'timer', 'count_calls', 'deprecated', 'trace_if_returns', 'does_same_as_function', 'rename_kwargs', 'mock', 'unimplemented']
 SHAPE_STYLES = {
     'pos': ['P2', 'K2', 'M', 'K2r', 'RZ', 'RC', 'RY', 'P1', 'P3'],
     'kw': ['K2', 'K1', 'K2r', 'RZ', 'RC', 'P1', 'E'],
@@ -276,7 +307,7 @@ def wire(x):
     layers = []
     for j, l in enumerate(x['layers']):
         wl = {'d': l['d'], 'param': [PARAM_ID, PARAM_CLS], 'renames': RENAME_SETS[l['renames']],
-              'guard': guard_for(x, j) if l['d'] == 'require_kwargs' else NO_GUARD}
+              'guard': (rk_guard(x, j) if 'rk' in x else guard_for(x, j)) if l['d'] == 'require_kwargs' else NO_GUARD}
         if l['d'] == 'overrides':
             wl['base'] = describe(*base_of(l), 'target')
             wl['fname'] = MEMBER_KEY['target']
@@ -288,6 +319,9 @@ def wire(x):
          'other': {'coro': x['other_flavour'] == 'async', 'sig': osig, 'script': oscript},
          'layers': layers, 'member': None, 'self': SELF_ID if shape == 'method' else None,
          'calls': [{'pos': STYLES[s][0], 'kw': STYLES[s][1]} for s in x['styles']]}
+    if 'rk' in x:
+        outer, inner, twin = rk_binding(x['rk'], x['access'])
+        c.update({'self': outer, 'innerSelf': inner, 'twinSelf': twin})
     if x['member']:
         m = x['member']
         c['member'] = {'kind': m['kind'], 'access': m['access'], 'self': SELF_ID, 'cls': CLS_ID, 'cdeco': m['cdeco'],
@@ -295,6 +329,114 @@ def wire(x):
         c['layers'] = []
         c['self'] = None
     return c
+
+
+def rk_guard(x, j):
+    """what DecoratedFunction reads off the callable the require_kwargs layer j of an rk program wraps (inspect.getsource of a function
+    includes ALL its decorator lines; of a bound method: the source of the undecorated method)"""
+    form, shape = x['rk'], x['shape']
+    n_lines = len(x['layers']) + (1 if form in ('static_below', 'classm_below') else 0)
+    g = {'wantsArgs': '*args' in SHAPES[shape][0], 'selfFirst': RK_FORMS[form] == 'm', 'isStatic': form == 'static_below', 'nDeco': n_lines,
+         'marker': True, 'isMethodObj': False, 'notFunction': form in ('static_above', 'classm_above')}
+    if form in ('bound', 'bound_classm'):
+        g.update(nDeco=1 if form == 'bound_classm' else 0, marker=False, isMethodObj=True)
+    return g
+
+
+def rk_binding(form, access):
+    """(bound in front of the decorated callable, bound below the decorators, bound in front of the twin); 0 = nothing"""
+    return {('plain', None): (None, None, 0), ('method', 'instance'): (SELF_ID, None, SELF_ID),
+            ('static_below', 'instance'): (None, None, 0), ('static_below', 'cls'): (None, None, 0),
+            ('static_above', 'instance'): (SELF_ID, None, 0), ('static_above', 'cls'): (None, None, 0),
+            ('classm_below', 'instance'): (CLS_ID, None, CLS_ID), ('classm_below', 'cls'): (CLS_ID, None, CLS_ID),
+            ('classm_above', 'instance'): (SELF_ID, None, CLS_ID), ('classm_above', 'cls'): (None, None, CLS_ID),
+            ('bound', None): (None, SELF_ID, SELF_ID), ('bound_classm', None): (None, CLS_ID, CLS_ID)}[(form, access)]
+
+
+def mk_rk(form, access, shape, flavour, styles, wkinds, layers=None, mode='ignore'):
+    layers = layers or [layer('require_kwargs')]
+    x = {'rk': form, 'access': access, 'layers': layers, 'flavour': flavour, 'shape': shape, 'styles': list(styles), 'wkinds': list(wkinds),
+         'okinds': ['equal'] * (2 * len(wkinds) + 2), 'other_flavour': flavour, 'member': None, 'mode': mode}
+    return {'m': 'utility', 'c': wire(x), 'x': x}
+
+
+def rk_cases(tier):
+    out = []
+    for form, first in RK_FORMS.items():
+        for access in RK_ACCESS[form]:
+            for suffix in ('', 'k', 'a', 'ab'):
+                shape = f'rk_{first}{suffix}'
+                for flavour in ('sync', 'async'):
+                    for style in RK_STYLES[suffix]:
+                        for wk in (('ret', 'exc') if style in ('P3c', 'P3', 'K2', 'M') else ('ret',)):
+                            out.append(mk_rk(form, access, shape, flavour, [style], [wk, wk]))
+                    # a history through one decorated callable, and the same under trace (two decorator lines)
+                    st = RK_STYLES[suffix][:4]
+                    out.append(mk_rk(form, access, shape, flavour, st, ['ret', 'exc', 'ret', 'base', 'ret', 'ret', 'ret', 'ret']))
+                    if form in ('plain', 'method', 'static_below', 'classm_below'):
+                        for ls in (['trace', 'require_kwargs'], ['count_calls', 'require_kwargs']):
+                            out.append(mk_rk(form, access, shape, flavour, st, ['ret', 'ret', 'exc', 'ret', 'ret', 'ret', 'ret', 'ret'], [layer(d) for d in ls]))
+    return out
+
+
+def mk_staged(stages, flavour, wkinds, preset=None, okinds=None, other_flavour=None, mode='ignore', shape='pos'):
+    """stages: [(decorators added at this stage, outermost first, [call styles])]"""
+    n = sum(len(st) for _, st in stages)
+    x = {'staged': [{'layers': [layer(d) if isinstance(d, str) else d for d in ds], 'styles': list(st)} for ds, st in stages], 'preset': preset,
+         'flavour': flavour, 'shape': shape, 'wkinds': list(wkinds), 'okinds': list(okinds) if okinds is not None else ['equal'] * (2 * n + 2),
+         'other_flavour': other_flavour or flavour, 'mode': mode}
+    return {'m': 'utility', 'c': wire_staged(x), 'x': x}
+
+
+def wire_staged(x):
+    sig = SHAPES[x['shape']][3]
+    wscript = outcome_script(x['wkinds'])
+    oscript = other_script(x['okinds'], wscript)
+    return {'kind': 'staged', 'preset': x['preset'],
+            'body': {'coro': x['flavour'] == 'async', 'sig': sig, 'script': wscript},
+            'other': {'coro': x['other_flavour'] == 'async', 'sig': dict(sig), 'script': oscript},
+            'stages': [{'layers': [{'d': l['d'], 'param': [PARAM_ID, PARAM_CLS], 'renames': RENAME_SETS[l['renames']], 'guard': NO_GUARD} for l in st['layers']],
+                        'calls': [{'pos': STYLES[s][0], 'kw': STYLES[s][1]} for s in st['styles']]} for st in x['staged']]}
+
+
+def staged_cases(rng, tier):
+    """decoration of callables that already carry attributes"""
+    out = []
+    sty = ['P2', 'K2', 'M', 'P2', 'K2r', 'P1']
+    for flavour in ('sync', 'async'):
+        for k in range(0, 6):                      # the counted function has been called k times (P1 does not bind: counted all the same)
+            for n in (1, 3):
+                wk = [rng.choice(OUTCOMES) for _ in range(2 * (k + n) + 2)]
+                # count_calls(counted), directly and through every other decorator in between
+                out.append(mk_staged([(['count_calls'], sty[:k]), (['count_calls'], sty[:n])], flavour, wk))
+                for d in STAGED_POOL:
+                    out.append(mk_staged([(['count_calls'], sty[:k]), (['count_calls', d], sty[:n])], flavour, wk, mode='always'))
+                    if k in (0, 2):
+                        out.append(mk_staged([(['count_calls'], sty[:k]), ([d], sty[:1]), (['count_calls'], sty[:n])], flavour, wk, mode='always'))
+                # re-decoration after calls, three times over
+                out.append(mk_staged([(['count_calls'], sty[:k]), (['count_calls'], sty[:n]), (['count_calls'], sty[:2])], flavour, wk))
+        # attributes set by hand on the raw function (num_calls and another __dict__ entry)
+        for preset in (0, 7, -3):
+            for ds in (['count_calls'], ['count_calls', 'count_calls'], ['count_calls', 'trace'], ['trace', 'count_calls'], ['trace'], ['count_calls', 'timer', 'deprecated']):
+                out.append(mk_staged([(ds, sty[:3])], flavour, ['ret', 'exc', 'ret', 'base', 'ret', 'ret', 'ret', 'ret'], preset=preset))
+                out.append(mk_staged([(ds, sty[:2]), (['count_calls'], sty[:2])], flavour, ['ret'] * 10, preset=preset))
+    return out + rand_staged(rng, 150 if tier == 'quick' else 4000)
+
+
+def rand_staged(rng, n):
+    out = []
+    for _ in range(n):
+        stages = []
+        for _ in range(rng.randint(2, 4)):
+            ds = [rng.choice(STAGED_POOL if rng.random() < 0.4 else ['count_calls', 'count_calls', 'trace', 'timer', 'deprecated', 'trace_if_returns'])
+                  for _ in range(rng.choice([1, 1, 2]))]
+            ds = [layer(d, renames=rng.choice(list(RENAME_SETS))) for d in ds]
+            stages.append((ds, [rng.choice(['P2', 'K2', 'M', 'K2r', 'P1', 'RZ']) for _ in range(rng.choice([0, 1, 2, 3, 5]))]))
+        total = sum(len(st) for _, st in stages)
+        out.append(mk_staged(stages, rng.choice(['sync', 'async']), [rng.choice(OUTCOMES + ['ret']) for _ in range(2 * total + 2)],
+                             preset=rng.choice([None, None, 4]), okinds=[rng.choice(['same', 'equal', 'equal', 'diff', 'exc']) for _ in range(2 * total + 2)],
+                             other_flavour=rng.choice(['sync', 'async']), mode=rng.choice(['ignore', 'default', 'always'])))
+    return out
 
 
 def valid_layers(names, shape):
@@ -448,12 +590,13 @@ def ovr_cases(tier):
 
 def cases(rng, tier):
     out = attrs_cases() + singles(tier) + members(tier) + pairs(tier) + counter_histories(rng, tier) + ovr_cases(tier)
+    out += rk_cases(tier) + staged_cases(rng, tier)
     out += random_cases(rng, 600 if tier == 'quick' else 30000)
     return out
 
 
 def search(rng, tier, near):
-    return random_cases(rng, 3000)
+    return random_cases(rng, 2500) + rand_staged(rng, 500)
 
 
 # ------------------------------------------------------------------ generated programs
@@ -597,6 +740,39 @@ def program_source(x):
     return src
 
 
+def rk_source(x):
+    """require_kwargs (alone or with one more decorator) on a callable in one of the forms of RK_FORMS, next to an undecorated twin"""
+    form, shape, flavour = x['rk'], x['shape'], x['flavour']
+    decos = [deco_line(l) for l in x['layers']]
+    src = IMPORTS
+    if form == 'plain':
+        return src + fn_source('twin', shape, flavour, 'w', []) + fn_source('target', shape, flavour, 'w', decos)
+    pre = {'method': [], 'static_below': ['@staticmethod'], 'static_above': ['@staticmethod'], 'classm_below': ['@classmethod'],
+           'classm_above': ['@classmethod'], 'bound': [], 'bound_classm': ['@classmethod']}[form]
+    src += 'class KT:\n' + fn_source('target', shape, flavour, 'w', pre, '    ')
+    if form in ('bound', 'bound_classm'):
+        # the decorator is CALLED with a bound method object
+        src += 'class K:\n' + fn_source('target', shape, flavour, 'w', pre, '    ')
+        src += 'TWIN_INST = KT()\nINST = K()\n'
+        src += 'CHECKED = ' + ''.join(l['d'] + '(' for l in x['layers']) + ('INST.target' if form == 'bound' else 'K.target') + ')' * len(x['layers']) + '\n'
+        return src
+    lines = decos + pre if form.endswith('_above') else pre + decos
+    return src + 'class K:\n' + fn_source('target', shape, flavour, 'w', lines, '    ')
+
+
+def staged_source(x):
+    """the raw function, its twin, and one single-decorator function per layer of every stage (applied by the harness between the calls)"""
+    shape, flavour = x['shape'], x['flavour']
+    src = IMPORTS + fn_source('other', shape, x['other_flavour'], 'o', []) + fn_source('twin', shape, flavour, 'w', []) + fn_source('target', shape, flavour, 'w', [])
+    if x['preset'] is not None:
+        src += f"target.num_calls = {x['preset']}\ntarget.marker = H.param\n"
+    src += 'STAGES = [\n'
+    for st in x['staged']:
+        # innermost first: the order of application
+        src += '    [' + ', '.join('lambda f: ' + deco_line(l)[1:] + '(f)' for l in reversed(st['layers'])) + '],\n'
+    return src + ']\n'
+
+
 def ovr_source(o, flavour):
     a = 'async ' if flavour == 'async' else ''
     return (IMPORTS + base_source(o['base'], o['member']) +
@@ -674,10 +850,11 @@ def canon_exc(H, e):
     return ['exc', 'body', i] if i >= 0 else ['exc', 'lib', type(e).__name__]
 
 
-def run_calls(H, loop, fn_for_call, x, counters_of):
+def run_calls(H, loop, fn_for_call, x, counters_of, reset=True):
     """one history on one callable; returns the per-call observations"""
-    H.J = []
-    H.inv = {'w': 0, 'o': 0}
+    if reset:
+        H.J = []
+        H.inv = {'w': 0, 'o': 0}
     out = []
     for s in x['styles']:
         pos, kw = STYLES[s]
@@ -704,6 +881,94 @@ def run_calls(H, loop, fn_for_call, x, counters_of):
                     e = None
         out.append({'evs': H.J[mark:], 'res': res, 'counters': counters_of()})
     return out
+
+
+def run_rk(H, loop, x, mod, name, exc):
+    """require_kwargs forms: the decorated callable and its twin, reached through the instance / the class / the decorated bound method"""
+    form, access = x['rk'], x['access']
+    res = {'deco': exc}
+    if exc and not hasattr(mod, 'twin' if form == 'plain' else 'KT'):
+        res['twin'] = None
+        return res
+    if form == 'plain':
+        twin_call = lambda a, k: mod.twin(*a, **k)
+    else:
+        kt = mod.KT
+        ti = mod.TWIN_INST if form in ('bound', 'bound_classm') else kt()
+        H.table[SELF_ID], H.table[CLS_ID] = ti, kt
+        twin_call = (lambda a, k: kt.target(*a, **k)) if (access == 'cls' or form == 'bound_classm') else (lambda a, k: ti.target(*a, **k))
+    res['twin'] = run_calls(H, loop, twin_call, x, lambda: [])
+    if exc:
+        return res
+    if form == 'plain':
+        f0, qual = mod.target, 'target'
+        call = lambda a, k: mod.target(*a, **k)
+    elif form in ('bound', 'bound_classm'):
+        H.table[SELF_ID], H.table[CLS_ID] = mod.INST, mod.K
+        f0, qual = mod.CHECKED, 'K.target'
+        call = lambda a, k: mod.CHECKED(*a, **k)
+    else:
+        kc = mod.K
+        inst = kc()
+        H.table[SELF_ID], H.table[CLS_ID] = inst, kc
+        f0, qual = kc.__dict__['target'], 'K.target'
+        if isinstance(f0, (staticmethod, classmethod)):
+            f0 = f0.__func__
+        call = (lambda a, k: kc.target(*a, **k)) if access == 'cls' else (lambda a, k: inst.target(*a, **k))
+    chain = [f0]
+    while hasattr(chain[-1], '__wrapped__') and len(chain) < 10:
+        chain.append(chain[-1].__wrapped__)
+    wrapping = [l['d'] for l in x['layers']]
+
+    def counters_of():
+        return [getattr(chain[j], 'num_calls', None) if j < len(chain) else None for j, d in enumerate(wrapping) if d == 'count_calls']
+    res['attrs'] = [getattr(f0, '__name__', None) == 'target', getattr(f0, '__qualname__', None) == qual,
+                    getattr(f0, '__doc__', None) == 'doc of target', getattr(f0, '__module__', None) == name]
+    res['coro'] = inspect.iscoroutinefunction(f0)
+    res['calls'] = run_calls(H, loop, call, x, counters_of)
+    return res
+
+
+def run_staged(progs, H, loop, x):
+    """decorate, call, decorate the result again, call, …; after every call the `num_calls` entry of every wrapper built so far"""
+    H.reset_objects()
+    wscript = outcome_script(x['wkinds'])
+    H.script = {'w': wscript, 'o': other_script(x['okinds'], wscript)}
+    for e in H.script['w'] + H.script['o']:
+        H.obj(e)
+    mod, name, exc = progs.load(staged_source(x))
+    if exc:
+        return {'deco': exc, 'twin': None}
+    all_styles = [s for st in x['staged'] for s in st['styles']]
+    res = {'deco': None, 'twin': run_calls(H, loop, lambda a, k: mod.twin(*a, **k), dict(x, styles=all_styles), lambda: [])}
+    H.J = []
+    H.inv = {'w': 0, 'o': 0}
+    f = mod.target
+    wrappers = []           # outermost first
+    stages = []
+    for st, appliers in zip(x['staged'], mod.STAGES):
+        try:
+            for ap in appliers:
+                f = ap(f)
+                wrappers.insert(0, f)
+        except BaseException as e:
+            return {'deco': type(e).__name__, 'twin': res['twin']}
+        top = f
+
+        def attrs_of():
+            return [v if (v is None or type(v) is int) else 'other' for v in (w.__dict__.get('num_calls') for w in wrappers)]
+        calls = run_calls_keep(H, loop, lambda a, k: top(*a, **k), dict(x, styles=st['styles']), attrs_of)
+        stages.append({'calls': calls, 'meta': [getattr(top, '__name__', None) == 'target', getattr(top, '__qualname__', None) == 'target',
+                                                 getattr(top, '__doc__', None) == 'doc of target', getattr(top, '__module__', None) == name],
+                       'coro': inspect.iscoroutinefunction(top),
+                       'marker': (getattr(top, 'marker', None) is H.param) if x['preset'] is not None else None})
+    res['stages'] = stages
+    return res
+
+
+def run_calls_keep(H, loop, fn_for_call, x, counters_of):
+    """run_calls without resetting the journal / the invocation counters (the history goes on across stages)"""
+    return run_calls(H, loop, fn_for_call, x, counters_of, reset=False)
 
 
 def run_impl(cases):
@@ -736,13 +1001,19 @@ def run_impl(cases):
                 H.kept = None
                 out.append(res)
                 continue
+            if 'staged' in x:
+                out.append(run_staged(progs, H, loop, x))
+                continue
             H.reset_objects()
             wscript = outcome_script(x['wkinds'])
             H.script = {'w': wscript, 'o': other_script(x['okinds'], wscript)}
             for e in H.script['w'] + H.script['o']:
                 H.obj(e)
-            mod, name, exc = progs.load(program_source(x))
+            mod, name, exc = progs.load(rk_source(x) if 'rk' in x else program_source(x))
             shape, m = x['shape'], x['member']
+            if 'rk' in x:
+                out.append(run_rk(H, loop, x, mod, name, exc))
+                continue
             res = {'deco': exc}
             if any(l['d'] == 'overrides' for l in x['layers']) and hasattr(mod, 'Base'):
                 res['obs'] = class_obs(mod.Base, 'target')
@@ -836,6 +1107,71 @@ def body_events(evs):
     return [norm_ev(e) for e in evs if e and e[0] == 'body' and e[1] == 'w']
 
 
+REJECTED = ['exc', 'lib', 'PedanticCallWithArgsException']
+
+
+def judge_staged(case, impl, model):
+    x = case['x']
+    tag = 'staged/' + '|'.join('+'.join(l['d'] for l in st['layers']) for st in x['staged'])
+    if len(tag) > 60:
+        tag = f"staged/{len(x['staged'])}-stages"
+    tag += f"/{x['flavour']}" + ('/preset' if x['preset'] is not None else '')
+    if 'error' in model:
+        return {'corr': False, 'pfail': None, 'tag': tag, 'why': 'driver: ' + model['error'], 'nontrivial': False}
+    if impl.get('twin') is None or impl.get('deco'):
+        return {'corr': False, 'pfail': f"building the staged program raised {impl.get('deco')}", 'tag': tag, 'why': 'program failed', 'nontrivial': False}
+    m, s = model['model'], model['spec']
+    why = []
+    pfail = None
+    # correspondence: per stage, per call: journal, result, the num_calls entry of every wrapper; metadata, coroutine-ness, the carried __dict__ entry
+    for si, (ist, mst) in enumerate(zip(impl['stages'], m)):
+        ic = [dict(norm_call(c), counters=c['counters']) for c in ist['calls']]
+        mc = [dict(norm_call(dict(c, counters=c['attrs'])), counters=c['attrs']) for c in mst['calls']]
+        if ic != mc:
+            k = next((i for i, (a, b) in enumerate(zip(ic, mc)) if a != b), min(len(ic), len(mc)))
+            why.append(f'stage {si} call {k}: impl {ic[k] if k < len(ic) else None} model {mc[k] if k < len(mc) else None} (counters = num_calls entry of every wrapper, outermost first)')
+        if all(ist['meta']) != mst['meta']:
+            why.append(f"stage {si} metadata: impl {ist['meta']} model {mst['meta']}")
+        if ist['coro'] != mst['coro']:
+            why.append(f"stage {si} iscoroutinefunction: impl {ist['coro']} model {mst['coro']}")
+        if ist['marker'] is not None and ist['marker'] != mst['meta']:
+            why.append(f"stage {si}: the __dict__ entry set by hand is {'still there' if ist['marker'] else 'gone'}, model says wraps everywhere = {mst['meta']}")
+    # property: the twin, then every call against the specification; counters of the count_calls layers only
+    kinds = []
+    k_tw = 0
+    stop = False
+    for si, (ist, sst) in enumerate(zip(impl['stages'], s)):
+        kinds = [l['d'] for l in reversed(x['staged'][si]['layers'])][::-1] + kinds       # outermost first, like the wrappers
+        if stop:
+            break
+        if not all(ist['meta']):
+            pfail = f'stage {si}: metadata not preserved'
+            break
+        if sst['coro'] is not None and ist['coro'] != sst['coro']:
+            pfail = f"stage {si}: coroutine-ness not kept: iscoroutinefunction is {ist['coro']}"
+            break
+        for k, (ic, sc) in enumerate(zip(ist['calls'], sst['calls'])):
+            if sc['unspec']:
+                stop = True
+                break
+            ic = norm_call(ic)
+            counts = [v for v, d in zip(ic['counters'], kinds) if d == 'count_calls']
+            if body_events(ic['evs']) != [norm_ev(e) for e in sc['calls']]:
+                pfail = f"stage {si} call {k}: body invocations {body_events(ic['evs'])} instead of {sc['calls']}"
+            elif ic['res'] != sc['res']:
+                pfail = f"stage {si} call {k}: caller saw {ic['res']} instead of {sc['res']}"
+            elif sum(1 for e in ic['evs'] if e == ['warn', 'DeprecationWarning']) != sc['warns']:
+                pfail = f"stage {si} call {k}: {sum(1 for e in ic['evs'] if e == ['warn', 'DeprecationWarning'])} DeprecationWarning(s) instead of {sc['warns']}"
+            elif counts != sc['counters']:
+                pfail = (f"stage {si} call {k}: num_calls of the count_calls layers (outermost first) is {counts} instead of {sc['counters']} "
+                         f"(every decoration counts its own calls, starting from zero)")
+            if pfail:
+                stop = True
+                break
+    corr = not why
+    return {'corr': corr, 'pfail': pfail, 'finding': None, 'tag': tag, 'nontrivial': any(st['styles'] for st in x['staged']), 'why': '; '.join(why)}
+
+
 def judge(case, impl, model):
     x = case['x']
     m, s = model['model'], model['spec']
@@ -877,8 +1213,12 @@ def judge(case, impl, model):
             pfail = 'overrides did not hand back the decorated function itself'
         return {'corr': not why, 'pfail': pfail, 'finding': None, 'tag': tag, 'nontrivial': True, 'why': '; '.join(why)}
 
+    if 'staged' in x:
+        return judge_staged(case, impl, model)
     names = [l['d'] for l in x['layers']] or [x['member']['cdeco'] + ':' + x['member']['kind'] + ':' + x['member']['access']]
     tag = '+'.join(names) if len(names) < 3 else f'depth{len(names)}'
+    if 'rk' in x:
+        tag = f"rk:{x['rk']}:{x['access'] or '-'}:" + tag
     if names == ['overrides']:
         tag += ':' + '/'.join(base_of(x['layers'][0]))
     tag += f"/{x['flavour']}/{x['shape']}"
@@ -927,6 +1267,8 @@ def judge(case, impl, model):
                 if sc['unspec']:
                     break
                 ic = norm_call(ic)
+                if sc.get('mayReject') and ic['res'] == REJECTED and not body_events(ic['evs']):
+                    break       # refused by require_kwargs before anything underneath ran (which calls are refused: C05); the history is not followed further
                 if body_events(ic['evs']) != [norm_ev(e) for e in sc['calls']]:
                     pfail = f"call {k}: body invocations {body_events(ic['evs'])} instead of {sc['calls']}"
                 elif ic['res'] != sc['res']:
@@ -939,6 +1281,12 @@ def judge(case, impl, model):
                     break
     corr = not why
     finding = model.get('region') if (pfail and corr and model.get('region')) else None
+    if pfail and corr and x.get('rk') == 'bound' and pfail.startswith('call '):
+        # PedVerif.Utility.inBoundRegion: the bound method handed to the decorator is called without any positional argument, and the
+        # wrapper raises IndexError (model and implementation agree) before anything underneath runs
+        k = int(pfail[5:pfail.index(':')])
+        if not STYLES[x['styles'][k]][0] and impl['calls'][k]['res'][:3] == ['exc', 'lib', 'IndexError'] and not body_events(impl['calls'][k]['evs']):
+            finding = FINDING_BOUND
     return {'corr': corr, 'pfail': pfail, 'finding': finding, 'tag': tag, 'nontrivial': bool(x['styles']) and impl['deco'] is None,
             'why': '; '.join(why)}
 
@@ -950,7 +1298,10 @@ def extra_coverage(results):
         x = c['x']
         if 'ovr' in x:
             progs.add(json.dumps(x, sort_keys=True))
+        elif 'staged' in x:
+            progs.add(json.dumps([x['staged'], x['flavour'], x['preset']], sort_keys=True))
+            calls += sum(len(st['styles']) for st in x['staged'])
         elif 'attrs' not in x:
-            progs.add(json.dumps([x['layers'], x['flavour'], x['shape'], x['member'], x['other_flavour']], sort_keys=True))
+            progs.add(json.dumps([x['layers'], x['flavour'], x['shape'], x['member'], x['other_flavour'], x.get('rk'), x.get('access')], sort_keys=True))
             calls += len(x['styles'])
     return {'generated_programs': len(progs), 'calls_executed_on_decorated_and_twin': calls}
